@@ -1,6 +1,7 @@
 package main
 
 import (
+	"strconv"
 	"bytes"
 	"io"
 	"reflect"
@@ -222,6 +223,66 @@ func genC08(o *hx.Out, tier string) {
 				cur = next
 			}
 		}
+	}
+	// a router reads ahead: several frames are read from one transport before the first is written
+	// out again; every frame must still go out byte for byte (no dialect: payloads stay raw)
+	nst := 30
+	if tier == "thorough" {
+		nst = 600
+	}
+	for i := 0; i < nst; i++ {
+		nfr := 2 + r.Intn(8)
+		var wires [][]byte
+		var stream []byte
+		signedAny := false
+		for j := 0; j < nfr; j++ {
+			p := make([]byte, 1+r.Intn(250))
+			r.Read(p)
+			p[len(p)-1] |= 1
+			raw := &message.MessageRaw{ID: uint32(1 + r.Intn(250)), Payload: p}
+			var fr frame.Frame
+			switch r.Intn(3) {
+			case 0:
+				fr = &frame.V1Frame{SequenceNumber: byte(j), SystemID: byte(r.Intn(256)), ComponentID: byte(r.Intn(256)), Message: raw, Checksum: uint16(r.Intn(65536))}
+			case 1:
+				fr = &frame.V2Frame{SequenceNumber: byte(j), SystemID: byte(r.Intn(256)), ComponentID: byte(r.Intn(256)), Message: raw, Checksum: uint16(r.Intn(65536))}
+			default:
+				f := &frame.V2Frame{SequenceNumber: byte(j), SystemID: byte(r.Intn(256)), ComponentID: byte(r.Intn(256)), Message: raw, Checksum: uint16(r.Intn(65536)),
+					IncompatibilityFlag: 1, SignatureLinkID: byte(r.Intn(256)), SignatureTimestamp: uint64(1000000 + j)}
+				f.Signature = f.GenerateSignature(key)
+				fr = f
+				signedAny = true
+			}
+			w := manualWire(fr)
+			wires = append(wires, w)
+			stream = append(stream, w...)
+		}
+		_ = signedAny
+		rd := &frame.Reader{ByteReader: bytes.NewReader(stream)}
+		rd.Initialize() //nolint:errcheck
+		var got []frame.Frame
+		verdict := "ok"
+		for j := 0; j < nfr; j++ {
+			fr, err := rd.Read()
+			if err != nil {
+				verdict = "READ-FAILED at frame " + strconv.Itoa(j) + ": " + err.Error()
+				break
+			}
+			got = append(got, fr)
+		}
+		for j, fr := range got {
+			var out bytes.Buffer
+			w := &frame.Writer{ByteWriter: &out}
+			w.Initialize() //nolint:errcheck
+			if err := w.Write(fr); err != nil {
+				verdict = "WRITE-FAILED at frame " + strconv.Itoa(j)
+				break
+			}
+			if !bytes.Equal(out.Bytes(), wires[j]) && verdict == "ok" {
+				verdict = "BYTES-CHANGED at frame " + strconv.Itoa(j) + " of " + strconv.Itoa(nfr) + ": got " + hx.Hex(out.Bytes()) + " want " + hx.Hex(wires[j])
+			}
+		}
+		o.Add("read ahead, then forward", verdict, "expect", "ok", "stream of "+strconv.Itoa(nfr)+" frames, "+strconv.Itoa(len(stream))+" bytes")
 	}
 	// unknown ids through a dialect-configured router
 	for i := 0; i < 60; i++ {
